@@ -17,7 +17,7 @@ class _TickArithmetic:
         from pyoda_time._pyoda_constants import PyodaConstants
 
         if ticks >= 0:
-            days = int((ticks >> 14) / 52734375)
+            days = (ticks >> 14) // 52734375
             tick_of_day = ticks - days * PyodaConstants.TICKS_PER_DAY
         else:
             days = _towards_zero_division(ticks + 1, PyodaConstants.TICKS_PER_DAY) - 1
